@@ -59,7 +59,12 @@ def explore(ctx):
             for k in range(rng.randint(1, 3)):
                 step = dc.rand_prune_step(rng, c, cur_delta)
                 try:
-                    d.prune(**dc.prune_kwargs(c, step))
+                    if rng.random() < 0.3 and len(d):
+                        # drawing a sub-tree reads (and must not disturb) the cached descendants
+                        s_ = rng.choice(list(d._structures_dict.values()))
+                        d.plotter().get_lines(structures=rng.choice([s_, [s_], int(s_.idx)]), subtree=True)
+                    kwp = dc.prune_kwargs(c, step)
+                    d.prune(**(dc.with_peeking(kwp) if rng.random() < 0.3 else kwp))
                 except Exception as e:
                     ctx.oracle_failure({'case': c, 'history': history + [step]}, ['prune raised %r' % (e,)])
                     break
@@ -71,6 +76,11 @@ def explore(ctx):
                 if rng.random() < 0.5:
                     d.leaves, d.all_structures, list(d)
             variants = [('pruned', d)]
+        if rng.random() < 0.3 and len(d):
+            s_ = rng.choice(list(d._structures_dict.values()))
+            for _ in range(rng.randint(1, 2)):
+                d.plotter().get_lines(structures=rng.choice([s_, [s_], int(s_.idx)]), subtree=True)
+            history = history + ['get_lines(structure %d, subtree)' % s_.idx]
         if rng.random() < 0.35:
             fmt = rng.choice(['hdf5', 'fits'])
             try:
